@@ -117,10 +117,53 @@ func c03Window(c *Ctx, m *searchModel, rule string) {
 				bi = i
 			}
 		}
+		// child searches: the self-calls in fn, and those in a helper method the child search was split into
+		// (there the bounds are the helper's parameters: substituted by the arguments fn calls it with)
+		type childSite struct {
+			call  *ssa.Call
+			subst func(ssa.Value) ssa.Value
+		}
+		var childSites []childSite
+		ident := func(v ssa.Value) ssa.Value { return v }
 		for _, blk := range fn.Blocks {
 			for _, ins := range blk.Instrs {
-				call, ok := ins.(*ssa.Call)
-				if !ok || call.Call.StaticCallee() != fn || ai < 0 || bi < 0 {
+				if call, ok := ins.(*ssa.Call); ok && call.Call.StaticCallee() == fn {
+					childSites = append(childSites, childSite{call, ident})
+				}
+			}
+		}
+		for _, h := range m.helpersOf(fn) {
+			for _, blk := range h.Blocks {
+				for _, ins := range blk.Instrs {
+					call, ok := ins.(*ssa.Call)
+					if !ok || call.Call.StaticCallee() != fn {
+						continue
+					}
+					// every call of the helper from fn
+					for _, fb := range fn.Blocks {
+						for _, fi := range fb.Instrs {
+							hc, ok := fi.(*ssa.Call)
+							if !ok || hc.Call.StaticCallee() != h {
+								continue
+							}
+							hcall, hh := hc, h
+							childSites = append(childSites, childSite{call, func(v ssa.Value) ssa.Value {
+								for i, p := range hh.Params {
+									if ssa.Value(p) == stripConv(v) && i < len(hcall.Call.Args) {
+										return hcall.Call.Args[i]
+									}
+								}
+								return v
+							}})
+						}
+					}
+				}
+			}
+		}
+		for _, cs := range childSites {
+			{
+				call := cs.call
+				if ai < 0 || bi < 0 {
 					continue
 				}
 				for _, side := range []struct {
@@ -129,6 +172,7 @@ func c03Window(c *Ctx, m *searchModel, rule string) {
 					from int // the parent's bound this child bound must map back to
 				}{{"lower", call.Call.Args[ai], bi}, {"upper", call.Call.Args[bi], ai}} {
 					chain, base := scoreChain(side.arg)
+					base = cs.subst(base)
 					cons := fmt.Sprintf("%s: the child's %s bound maps back to the parent's %s", c.P.FuncName(fn), side.what, map[int]string{ai: "alpha", bi: "beta"}[side.from])
 					// the base must be the parent's beta (for the lower bound) / the current alpha (upper)
 					baseOK := false
